@@ -7,41 +7,33 @@ open Py Xs.Bind Xs.Backends
 
 /-! ## handlers: the prefix map the native handler passes to `parser.start` -/
 
-/-- Full-strength statement: on the event stream of any document the native handler makes the
-calls of a handler that passes the in-scope namespaces of every element (what lxml's
-`element.nsmap` is), whatever nodes the parser queues. -/
-def NativeNsmapInscope : Prop :=
-  ∀ t : XTree, (pump [] [] (toks t)).map PEv.view = spec [] t
-
-/-- a wrapper element that carries a declaration: `<Root><wrapa xmlns:p="urn:x"><a>p:foo</a></wrapa></Root>` -/
+/-- a wrapper element that carries a declaration: `<Root><wrapa xmlns:p="urn:x"><a>p:foo</a></wrapa></Root>`
+(the node queued for `<wrapa>` is a `WrapperNode`, which keeps its parent's map: `Store.top`) -/
 def wrapperWitness : XTree :=
   .node [] "Root".toList [] .passed none
     [.node [("p".toList, "urn:x".toList)] "wrapa".toList [] .top none
       [.node [] "a".toList [] .passed (some "p:foo".toList) [] none] none] none
 
-/-- The full-strength statement is false: the `WrapperNode` keeps its parent's map, so the
-declaration `xmlns:p` made on the wrapper element is not in the map passed for `<a>`. -/
-theorem native_nsmap_inscope_counterexample : ¬ NativeNsmapInscope := by
-  intro h
-  have h1 := h wrapperWitness
-  have h2 := congrArg (fun l => match l[3]? with
-    | some (SEv.start _ _ f) => f (some "p".toList)
-    | _ => some []) h1
-  revert h2
-  decide
-
-/-- **native_nsmap_inscope** (partial: every queued node keeps the map it was given).
-For every document, the calls of the native handler on its event stream are exactly the calls
-with the in-scope declarations (innermost wins) as prefix map. -/
-theorem native_nsmap_inscope_partial (t : XTree) (h : t.allPassed = true) :
+/-- **native_nsmap_inscope** (full strength since the handler keeps the maps of the open elements
+itself; it used to read `queue[-1].ns_map` back and lost the declarations made on a wrapper
+element, and everything below a union or skipped node).  For every document, whatever nodes the
+parser queues, the calls of the native handler on its event stream are exactly the calls with the
+in-scope declarations (innermost wins) as prefix map — what lxml's `element.nsmap` is. -/
+theorem native_nsmap_inscope (t : XTree) :
     (pump [] [] (toks t)).map PEv.view = spec [] t := by
-  have := pump_tree t [] [] [] h (by intro p; simp [topMap, get_nil, inScope])
+  have := pump_tree t [] [] [] (by intro p; simp [topMap, get_nil, inScope])
   simpa [pump] using this
 
+/-- the former counterexample: the declaration `xmlns:p` made on the wrapper element is in the map
+passed for `<a>` -/
+example : (match (pump [] [] (toks wrapperWitness))[3]? with
+    | some (PEv.start _ _ m) => m.get (some "p".toList)
+    | _ => none) = some "urn:x".toList := by decide
+
 example : (XTree.node [("".toList, "urn:a".toList), ("p".toList, "urn:p".toList)] "{urn:a}r".toList [] .passed none
-    [.node [("".toList, [])] "a".toList [] .passed none
-      [.node [("p".toList, "urn:p2".toList)] "b".toList [("{urn:p2}x".toList, "1".toList)] .passed none [] none]
-      (some "t".toList)] none).allPassed = true := by decide
+    [.node [("".toList, [])] "a".toList [] .empty none
+      [.node [("p".toList, "urn:p2".toList)] "b".toList [("{urn:p2}x".toList, "1".toList)] .top none [] none]
+      (some "t".toList)] none).allPassed = false := by decide
 
 /-- the in-scope lookup is "innermost declaration wins" -/
 theorem inScope_innermost (d : List (Str × Str)) (frames : List (List (Str × Str))) (p : Option Str) (u : Str)
@@ -69,16 +61,17 @@ theorem source_kind_irrelevant (tokenise : Source → List Tok) (s₁ s₂ : Sou
 example : ∃ (tokenise : Source → List Tok), tokenise (.bytes [60, 114, 47, 62]) = tokenise (.str "<r/>".toList) :=
   ⟨fun _ => [.start "r".toList [] .passed, .end "r".toList none none], rfl⟩
 
-/-- **iterwalk_partial** (ElementTree sources; partial as above): the event stream `iterwalk`
-makes up is the stream of the same tree carrying one invented declaration per namespaced
-element, so the handler passes the in-scope bindings of *those* declarations — every element's
-own namespace is bound, the prefixes of the original document are not (QName-valued content and
-`xsi:type` cannot be resolved from an ElementTree source). -/
-theorem iterwalk_partial (wk : List (Str × Str)) (t : XTree) (h : t.allPassed = true) :
+/-- **iterwalk_invented_declarations** (ElementTree sources): the event stream `iterwalk` makes up
+is the stream of the same tree carrying one invented declaration per namespaced element, so the
+handler passes the in-scope bindings of *those* declarations — every element's own namespace is
+bound, the prefixes of the original document are not (QName-valued content and `xsi:type` cannot be
+resolved from an ElementTree source; listed finding c09-native-xinclude-prefixes for the
+`process_xinclude` path). -/
+theorem iterwalk_invented_declarations (wk : List (Str × Str)) (t : XTree) :
     (nativeParseTree wk t).map PEv.view = spec [] (redecl wk t []).1 := by
   unfold nativeParseTree
   rw [(iterwalk_eq_toks wk t []).1]
-  exact native_nsmap_inscope_partial _ (by rw [allPassed_redecl]; exact h)
+  exact native_nsmap_inscope _
 
 example : nativeParseTree [] (.node [("p".toList, "urn:a".toList)] "{urn:a}r".toList [] .passed none [] none)
     = [.registerNs (some "ns0".toList) "urn:a".toList,
